@@ -52,6 +52,7 @@ open CoreDhcp
 #print axioms C02_progress
 #print axioms C03_holds
 #print axioms C03_restore
+#print axioms C03_promise_is_kept_lease
 #print axioms C03_D7_prefix_refuted
 #print axioms C04_alloc6
 #print axioms C04_alloc4
